@@ -210,13 +210,17 @@ template <typename T, typename C> static char const* rel_class(C const& c, T tar
 template <typename C> struct scripted_cb
 {
     int stop_at;
-    int* count;
+    int* count;   // (kept for the callers; the decision uses the object's own state)
     int rank;
+    int own;      // state of the callback object itself: the integrator invokes the object it was given, every time
+    scripted_cb(int s, int* c, int r) : stop_at(s), count(c), rank(r), own(0) {}
     bool operator()(C const& c)
     {
         ++*count;
-        bool ret = *count != stop_at;
-        ev("Callback").i("rank", rank).i("n", (long long) c.results().size()).i("ret", ret ? 1 : 0).s("cls", "user").emit();
+        ++own;
+        bool ret = own != stop_at;
+        // want: what an object that has seen every invocation of this run answers (the driver's count is shared by all copies)
+        ev("Callback").i("rank", rank).i("n", (long long) c.results().size()).i("ret", ret ? 1 : 0).s("cls", "user").i("want", *count != stop_at ? 1 : 0).emit();
         return ret;
     }
     bool operator()(MPI_Comm, C const& c) { return (*this)(c); }
@@ -259,7 +263,8 @@ static void c12_run(rng& g, int shp, int variant, int world, bool builtin, doubl
     typedef typename K::chk C;
     std::size_t n = 3 + g.below(3);
     std::vector<std::size_t> plan;
-    for (std::size_t i = 0; i != n; ++i) plan.push_back(builtin && target > 0 ? 200 : 2 + g.below(6));
+    // (iterations with no call at all or a single one are iterations like any other)
+    for (std::size_t i = 0; i != n; ++i) plan.push_back(builtin && target > 0 ? 200 : g.below(8));
     C start = K::fresh(variant);
     std::size_t n0 = 0;
     if (resumed)
